@@ -71,7 +71,8 @@ def main():
                   f"own-check={'CAUGHT' if own else 'missed'} | {compact or res.get('error', '')}")
             if save and confirmed:
                 name = f"{prop}-{os.path.basename(os.path.dirname(d))[4:]}-{os.path.basename(d)}".replace("out_", "")
-                name = f"{os.path.basename(os.path.dirname(d)).replace('out_', '')}-{os.path.basename(d)}"
+                parent = os.path.basename(os.path.dirname(d))
+                name = (parent.replace("out2_", "") + "-r2" if parent.startswith("out2_") else parent.replace("out_", "")) + "-" + os.path.basename(d)
                 dst = os.path.join(VERIF, "seeded", name)
                 os.makedirs(dst, exist_ok=True)
                 for f in ("patch.diff", "demo.py"):
